@@ -4,7 +4,7 @@
    (heap, objects, registers, cache, generator) and every operation/history of Model/Purity.v.
    Scope: they are statements about the aliasing facts written into the model (alias / copy /
    in-place write per operation); those facts are what the history correspondence observes. *)
-From LV Require Import Lib.Base Model.Purity Proofs.PurityP.
+From LV Require Import Lib.Base Model.Purity Proofs.PurityP Proofs.PurityConfP.
 
 (* (a) frame: a call assigns only into buffers that are fresh or documented as in-place for it;
    hence every buffer that existed before and is not documented in-place is byte-identical afterwards *)
@@ -44,10 +44,7 @@ Theorem C10_cache_invariant :
      (hget (hp s) b = Some (mkcell cS false) /\ ~ In b (visible s)) /\
      (hget (hp s) c = Some (mkcell cU false) /\ ~ In c (visible s)) /\
      (hget (hp s) d = Some (mkcell cV false) /\ ~ In d (visible s))).
-Proof.
-  intros K s R. destruct (cache_invariant K s R) as [W C]. split; [exact W|].
-  intros k a b c d H. exact (C _ H).
-Qed.
+Proof. exact cache_invariant_explicit. Qed.
 Print Assumptions C10_cache_invariant.
 
 (* ... and no operation assigns into a cached array *)
@@ -56,7 +53,7 @@ Theorem C10_cache_never_written :
   inv s -> In (k, (a, b, c, d)) (cache s) ->
   ~ In a (o_writes (snd (step K s o))) /\ ~ In b (o_writes (snd (step K s o))) /\
   ~ In c (o_writes (snd (step K s o))) /\ ~ In d (o_writes (snd (step K s o))).
-Proof. intros K s o k a b c d I H. exact (cache_never_written K s o _ I H). Qed.
+Proof. exact cache_never_written_explicit. Qed.
 Print Assumptions C10_cache_never_written.
 
 (* therefore: in any history of calls started in any valid state, every successful dft2/idft2 call
@@ -101,6 +98,39 @@ Theorem C10_seeded_ops_leave_global_rng :
   forall r, step K (with_rng s r) o = (with_rng (fst (step K s o)) r, snd (step K s o)).
 Proof. exact seeded_rng. Qed.
 Print Assumptions C10_seeded_ops_leave_global_rng.
+
+(* (c) confluence of plane histories.  Field.shift folds the tilt list by x -= z*t.x, y -= z*t.y: the list
+   enters only through its sum (the counterpart of C04's statement, here for the model's Field.shift) ... *)
+Theorem C10_tilt_enters_only_through_its_sum :
+  forall (z : Z) (tl : list tilt), shift_of z tl = (- z * fst (tsum tl), - z * snd (tsum tl)).
+Proof. exact shift_of_tsum. Qed.
+Print Assumptions C10_tilt_enters_only_through_its_sum.
+
+(* ... hence: take any two valid states (reached by whatever histories of constructions, attribute updates and
+   tilt fits) holding planes with equal amplitude, OPD and mask contents and equal per-segment tilt sums, and
+   wavefronts with equal field contents and accumulated shifts: multiplying and propagating gives the same fields *)
+Theorem C10_plane_history_confluence :
+  forall (K : kernels) (z : Z) (keys : list key) (s1 s2 : state) (p1 w1 p2 w2 : nat)
+         (jp1 : oid) (a1 d1 m1 : aid) (tl1 : list tilt) (n1 : nat) (k1 : Z) (jw1 : oid) (fs1 : list field)
+         (jp2 : oid) (a2 d2 m2 : aid) (tl2 : list tilt) (n2 : nat) (k2 : Z) (jw2 : oid) (fs2 : list field),
+  inv s1 -> inv s2 ->
+  getobj s1 p1 = Some (jp1, Plane a1 d1 m1 tl1 n1 k1) -> getobj s2 p2 = Some (jp2, Plane a2 d2 m2 tl2 n2 k2) ->
+  getobj s1 w1 = Some (jw1, Wave fs1) -> getobj s2 w2 = Some (jw2, Wave fs2) ->
+  (valof s1 a1, valof s1 d1, valof s1 m1, Nat.max n1 1,
+   map (fun n => tsum (stride tl1 n (Nat.max n1 1))) (seq 0 (Nat.max n1 1)))
+  = (valof s2 a2, valof s2 d2, valof s2 m2, Nat.max n2 1,
+     map (fun n => tsum (stride tl2 n (Nat.max n2 1))) (seq 0 (Nat.max n2 1))) ->
+  map (fun f => (valof s1 (f_data f), shift_of z (f_tilt f))) fs1
+  = map (fun f => (valof s2 (f_data f), shift_of z (f_tilt f))) fs2 ->
+  propagated K z keys s1 p1 w1 = propagated K z keys s2 p2 w2 /\ propagated K z keys s1 p1 w1 <> None.
+Proof. exact plane_history_confluence_explicit. Qed.
+Print Assumptions C10_plane_history_confluence.
+
+(* every state reachable by a history of calls is valid in the sense used above *)
+Theorem C10_reachable_states_are_valid :
+  forall (K : kernels) (s : state), reachable K s -> inv s.
+Proof. exact reachable_inv. Qed.
+Print Assumptions C10_reachable_states_are_valid.
 
 (* non-vacuity: a concrete history (two arrays, a plane on them, in-place tilt fit, two dft2 of the same shape,
    the second into an output buffer) is reachable, fills the cache, and performs exactly the documented writes *)
